@@ -44,6 +44,9 @@ def adv_vc(N, Kp, V, S, width):
             return False
         for n in range(N):
             toks = []
+            if any(ct.is_inf(lpn.a[n, k]) for k in range(K)):
+                goals.append(("n%d.fewer_real_slots_than_candidates" % n, z3.BoolVal(False)))  # a filler where a candidate must be
+                continue
             for k in range(K):
                 s_ = ip.to_z3(src.a[n, k])
                 tok = ip.to_z3(y_next.a[S, n, k])
